@@ -105,7 +105,8 @@ CHECKS = {
             "asyncio and trio drivers; layer pool-histories: undisturbed HTTP/2 histories through the pool (evictions, keep-alive 0, bursts) - no "
             "request may fail because of what siblings or other origins did; layer real-concurrent: the same over real sockets; "
             "MAX_CONCURRENT_STREAMS=0 not generated; interleavings sampled; scripted PINGs may come from a server that holds back the streams until "
-            "its PING has been acknowledged.",
+            "its PING has been acknowledged; layer disturbed-histories: the general concurrent histories (faults, one cancelled caller, peer actions, "
+            "keepalive_expiry 0) restricted to HTTP/2 kinds - a caller nobody cancelled must not end with a sibling's cancellation.",
             "3 C12"),
     "C13": ("exploration",
             "Hypothesis-generated upload/download scenarios against a peer that keeps its own window and frame-size accounting, plus an enumerated grid of sizes x policies; starvation decided at quiescence",
@@ -137,7 +138,8 @@ CHECKS = {
             "Every combination of connect/read/write/pool in {absent, None, 0, value} x 14 connection kinds x 3 request shapes, two requests "
             "with different dictionaries per cell, sync and async: the timeout argument of every connect/start_tls/read/write op is compared "
             "with the issuing request's configuration.",
-            "SimNet records the arguments of every backend call. Layer real-backends checks with real sockets that the sync/anyio/trio "
+            "SimNet records the arguments of every backend call (Unix-socket pools included); layer retry-attempts: every retried connection attempt must carry the "
+            "request's connect timeout; pool-timeout waiters may share one caller-owned timeout dictionary. Layer real-backends checks with real sockets that the sync/anyio/trio "
             "backends apply the value: a silent peer must yield the matching Timeout class, not before 0.06 s and not 5 s late.",
             "3 C16"),
     "C17": ("exploration",
